@@ -10,8 +10,9 @@
 //
 //	level j < depth:  Q, "s<j>", (try eval(<level j+1>) catch "c<j+1>:\(.)"), Q, "a<j>", (range(N) | select(. < 0)), "z<j>"
 //	level depth:      Q, "s<depth>", (range(N) | select(. < 0)), "z<depth>"
-//	Q = (eval("1, 2") | empty), (try (eval("1, error(\"e\")") | empty) catch empty)
-//	    two short nested evaluations, one finishing normally, one ending with a caught error, before the level goes on
+//	Q = (eval("1, 2") | empty), (try (eval("1, error(\"e\")") | empty) catch empty), (try (eval("nosuchfn_verif(1)") | empty) catch empty), (try (eval("1 +") | empty) catch empty)
+//	    short nested evaluations - one finishing normally, one ending with a caught error, one that does not compile, one that does
+//	    not parse - before the level goes on
 //
 // Every level reports on stdout when it starts (s), when the evaluation nested in it ended with an error (c) and when
 // it goes on afterwards (a), then runs "forever".  The virtual stdout delivers an interrupt through OS.InterruptChan()
@@ -84,9 +85,10 @@ const native = `("x" * 300000 | tobytes | hexdump)`
 const nativeBytes = 300000
 
 var nativeOut bool // the innermost level writes through the native function when it is interrupted
-// two short nested evaluations that are over before the level goes on: one runs to its end, one ends with an error that is caught
-// (an evaluation abandoned at its first error is finished too: nothing of it may stay on the interrupt stack)
-const short = `(eval("1, 2") | empty), (try (eval("1, error(\"e\")") | empty) catch empty)`
+// short nested evaluations that are over before the level goes on: one runs to its end, one ends with an error that is caught
+// (an evaluation abandoned at its first error is finished too: nothing of it may stay on the interrupt stack), one that does not
+// compile (unknown function) and one that does not parse - an evaluation that never started is not in progress either
+const short = `(eval("1, 2") | empty), (try (eval("1, error(\"e\")") | empty) catch empty), (try (eval("nosuchfn_verif(1)") | empty) catch empty), (try (eval("1 +") | empty) catch empty)`
 
 func program(level, depth int) string {
 	if level == depth {
